@@ -4,6 +4,8 @@
 (* history variable is printed as JSON when it reaches HLEN operations.     *)
 EXTENDS RouterApi, Json
 CONSTANTS HLEN, MAXSTEPS,
+          SHAPESONLY, \* generator profile: TRUE leaves out endpoint moves, resizes and setTransactionUse, so that the calls of a history are
+                      \* spent on long add / move / delete / process patterns of shapes under routed connectors (design runs use FALSE)
           PACE      \* 0: unrestricted; k > 0: sampling schedule -- with transactions on, every k-th call is processTransaction()
 VARIABLE hist
 \* (<<6, 0, 8, 10>> butts between <<2, 2, 6, 6>> and <<8, 2, 12, 6>>: their corners lie inside its vertical sides -- a shape added between two touching neighbours)
@@ -20,11 +22,11 @@ Next == /\ Len(hist) < HLEN /\ steps < MAXSTEPS
         /\ IF Paced THEN Process /\ Op(<<5>>) ELSE
            \/ \E s \in ShapeIds, r \in RectCat : AddShape(s, r) /\ Op(<<1, s, r[1], r[2], r[3], r[4]>>)
            \/ \E s \in ShapeIds, d \in Moves : MoveRel(s, d) /\ Op(<<2, s, d[1], d[2]>>)
-           \/ \E s \in ShapeIds, r \in ResizeCat : MoveAbs(s, r) /\ Op(<<7, s, r[1], r[2], r[3], r[4]>>)
+           \/ (~SHAPESONLY /\ \E s \in ShapeIds, r \in ResizeCat : MoveAbs(s, r) /\ Op(<<7, s, r[1], r[2], r[3], r[4]>>))
            \/ \E s \in ShapeIds : DeleteShape(s) /\ Op(<<3, s>>)
-           \/ \E c \in ConnIds, e \in 1..2, p \in PtCat : MoveEnd(c, e, p) /\ Op(<<4, c, e - 1, p[1], p[2]>>)
+           \/ (~SHAPESONLY /\ \E c \in ConnIds, e \in 1..2, p \in PtCat : MoveEnd(c, e, p) /\ Op(<<4, c, e - 1, p[1], p[2]>>))
            \/ (txn /\ Process /\ Op(<<5>>))
-           \/ \E b \in BOOLEAN : SetTxn(b) /\ Op(<<6, IF b THEN 1 ELSE 0>>)
+           \/ (~SHAPESONLY /\ \E b \in BOOLEAN : SetTxn(b) /\ Op(<<6, IF b THEN 1 ELSE 0>>))
 Spec == Init /\ [][Next]_<<vars, hist>>
 View == vars        \* design-level runs ignore the history variable
 \* generator: print every history that reached HLEN operations (simulation mode) -- always TRUE
